@@ -344,6 +344,7 @@ def explore_shape(prop, SH, OR, shape, validate=True, max_paths=None):
 
 def replay_record(prop, OR, shape, cinp, clause=None):
     """run the real code on a concrete input; return (violated clause names, obs)"""
+    loader.reset_state(OR)
     with _quiet():
         cobs = prop.execute(OR, shape, cinp)
     clauses = prop.oracle(shape, cinp, cobs)
